@@ -1492,7 +1492,8 @@ where
             } else if c < 7 && !rs.is_empty() { rs[rng.below(rs.len() as u64) as usize] }
             else if c < 8 { let a = rng.below((n as u64).saturating_add(1)) as usize; (a, a) }
             else if c < 9 { (rng.below((n as u64).saturating_add(1)) as usize, rng.below((n as u64).saturating_add(1)) as usize) }
-            else { (rng.below((n as u64).saturating_add(1)) as usize, n + rng.below(3) as usize) };
+            else if c < 10 && rng.chance(1, 2) { (rng.below((n as u64).saturating_add(1)) as usize, n + rng.below(3) as usize) }
+            else { let e = n + 1 + rng.below(4) as usize; (e + rng.below(3) as usize, e) };   // empty / reversed AND ending beyond n
             rs.push((a, b));
         }
         let flat: Vec<usize> = rs.iter().flat_map(|&(a, b)| vec![a, b]).collect();
